@@ -105,6 +105,8 @@ class Prop:
             elif x < 0.125:
                 # an instance trait that carries the metadata '+tag' filters on
                 ops.append({"k": "add_tagged", "o": r.randrange(npool + 1)})
+                if r.random() < 0.5:
+                    ops[-1]["like"] = r.randrange(npool + 1)
             elif allow_opt and x < 0.20:
                 ops.append(r.choice([{"k": "add_trait", "o": r.randrange(npool)},
                                      {"k": "add_trait", "o": r.randrange(npool),
@@ -114,6 +116,9 @@ class Prop:
                                      {"k": "add_trait", "o": r.randrange(npool),
                                       "dflt": G.gen_ref(r, npool, 0.3, 0.0)},
                                      {"k": "read_extra", "o": r.randrange(npool)},
+                                     # (the definition object of another node's trait)
+                                     {"k": "add_trait", "o": r.randrange(npool),
+                                      "like": r.randrange(npool)},
                                      {"k": "set_extra", "o": r.randrange(npool),
                                       "v": G.gen_ref(r, npool, 0.2, 0.1)}]))
             elif deferred and x < 0.18:
